@@ -15,6 +15,8 @@ pub(crate) use connection::{Connection, ConnectionConfig, TcpSocketOptions, Veri
 mod connection_pool;
 
 pub use connection::WriteCoalescingDelay;
+#[cfg(feature = "scylla-verif")]
+pub(crate) use connection::verif_hooks as verif_connection;
 pub use connection_pool::PoolSize;
 pub(crate) use connection_pool::{ConnectivityChangeEvent, NodeConnectionPool, PoolConfig};
 pub(crate) mod tls;
